@@ -535,13 +535,14 @@ type c3Disk struct {
 	parts    map[string]map[int]jsonBlobDownloadPart
 	other    []string
 	mans     map[int]*Manifest // nil value = corrupt
+	rawMans  map[int][]byte    // the manifest files as they are on disk
 }
 
 var c3FileRe = regexp.MustCompile(`^sha256-([0-9a-f]{64})(-partial(-(\d+))?)?$`)
 
 func c3ReadDisk(models string) *c3Disk {
 	d := &c3Disk{blobs: map[string][]byte{}, pdata: map[string][]byte{}, hasPData: map[string]bool{},
-		parts: map[string]map[int]jsonBlobDownloadPart{}, mans: map[int]*Manifest{}}
+		parts: map[string]map[int]jsonBlobDownloadPart{}, mans: map[int]*Manifest{}, rawMans: map[int][]byte{}}
 	ents, _ := os.ReadDir(filepath.Join(models, "blobs"))
 	for _, e := range ents {
 		m := c3FileRe.FindStringSubmatch(e.Name())
@@ -574,6 +575,7 @@ func c3ReadDisk(models string) *c3Disk {
 		if err != nil {
 			continue
 		}
+		d.rawMans[id] = b
 		var m Manifest
 		if json.NewDecoder(bytes.NewReader(b)).Decode(&m) != nil {
 			d.mans[id] = nil
